@@ -23,6 +23,8 @@ def engine_parts(cancel=False):
     if cancel:
         parts.append({"name": "cancel", "test": "TestCancel", "checks": {Q: 1600, T: 40000}, "shards": {Q: 4, T: 16},
                       "timeout": {Q: 400, T: 2400}, "shrinktime": "25s"})
+        parts.append({"name": "realrunner", "pkg": "c12", "test": "TestCancel", "checks": {Q: 48, T: 800}, "shards": {Q: 8, T: 16},
+                      "timeout": {Q: 500, T: 2400}, "shrinktime": "60s"})
     return parts
 
 
@@ -229,6 +231,26 @@ PROPS = {
             {"name": "vars", "test": "TestVars", "checks": {Q: 24, T: 600}, "shards": {Q: 8, T: 16}, "timeout": {Q: 400, T: 2400}},
             {"name": "args", "test": "TestArgs", "checks": {Q: 400, T: 12000}, "shards": {Q: 6, T: 16}, "timeout": {Q: 400, T: 2400}},
             {"name": "undefined", "test": "TestUndefined", "kind": "plain", "shards": {Q: 2, T: 2}, "timeout": {Q: 300, T: 300}},
+        ],
+    },
+    "C12": {
+        "pkg": "c12", "bin": False,
+        "technique": "fault injection matrix + rapid scenarios against the real TaskRunner/Scheduler in one child process per case; "
+                     "invariants over marker/pid logs and bounded-time returns",
+        "level_text": "For 0..4 tasks in flight and 0..3 waiting stages a cancel is injected before any run, during a before hook, during "
+                      "a command, during the second command, at a drawn point of a burst of 150 short commands (between commands), after "
+                      "everything finished, once / twice in a row / twice concurrently, through TaskRunner.Cancel, Scheduler.Cancel or "
+                      "an unevaluable stage condition. The child must not crash; Cancel and the run must return within 4 s (20 s on the "
+                      "retry; ~10 ms normally); recorded pids must disappear; no marker may appear after the cancel completed; "
+                      "interrupted and later runs must report errors; waiting stages must not be done.",
+        "level_note": "'At any moment' is sampled at marker granularity (plus drawn delays of 0..20 ms), not at instruction granularity.",
+        "rule": "matrix: in-flight 0..4 x waiting {0,2} x 6 injection points x once/twice-seq/twice-conc x runner/scheduler + condition "
+                "errors (quick: double cancels only for <= 2 in flight; thorough: all); cancel: rapid over the same space with drawn "
+                "burst markers and delays. Every case is non-trivial; distinct = (in flight, waiting, phase, double, via).",
+        "assumptions": ["commands are `sh -c 'echo $$ >> pids; exec sleep 30'` shapes: a child that ignores SIGINT belongs to C13"],
+        "parts": [
+            {"name": "matrix", "test": "TestMatrix", "kind": "plain", "shards": {Q: 16, T: 16}, "timeout": {Q: 500, T: 1800}},
+            {"name": "cancel", "test": "TestCancel", "checks": {Q: 64, T: 1600}, "shards": {Q: 8, T: 16}, "timeout": {Q: 500, T: 2400}, "shrinktime": "60s"},
         ],
     },
 }
